@@ -169,7 +169,7 @@ def run(tier, seed):
     step = 2
     blocks = [(tier, i, min(i + step, len(sp)), L) for i in range(0, len(sp), step)]
     total, capped = run_blocks(worker, blocks, seed=seed)
-    rep.add_violations(total.violations)
+    rep.add_violations(total.violations, total.hist_sig)
     rep.harness_errors = total.stats.get("harness_errors", 0)
     rep.notes.extend(total.notes)
     rep.coverage = {
